@@ -382,7 +382,9 @@ class World:
             if outcome == "all":
                 self.sock.send_script = []
             elif isinstance(outcome, int):
-                self.sock.send_script = [outcome]
+                # a partial write: the socket's buffer is full -- a further send() in the same round would block
+                # (the script is set anew for every round's send; code that sends once per round never sees the second entry)
+                self.sock.send_script = [outcome, OSError(errno.EAGAIN, "soft")]
             else:
                 self.sock.send_script = [OSError({"soft": errno.EAGAIN, "intr": errno.EINTR, "nobufs": errno.ENOBUFS,
                                                   "hard": errno.EPIPE}[outcome], outcome)]
